@@ -201,6 +201,15 @@ def run(F, R, tier):
                         valid = False
                 if bad:
                     break
+            if bad is None:
+                # a by-value capture freezes the index at the time the lambda is created: every later call of the lambda
+                # uses it although the index has been re-derived in between
+                for lam in walk(f["body"]):
+                    if lam.get("k") == "LambdaExpr":
+                        for cp in lam.get("captures", ()):
+                            if cp.get("id") == vid and not cp.get("byref"):
+                                bad = (lam, "captured by value by the lambda at line %s, which is called again after the index was "
+                                            "re-derived" % lam.get("l"))
             R.check("R4", bad is None, "%s: %s derived from {%s}" % (f["name"].split("::")[-1], name,
                                                                    ", ".join(sorted(x.split("::")[-1] for x in srcs))),
                     F.loc(f, bad[0]) if bad else F.loc(f),
@@ -221,6 +230,7 @@ def run(F, R, tier):
     R.guard(_selectors, F, R)
     R.guard(_goal_plumbing, F, R)
     R.guard(_fit_survives, F, R, FW)
+    R.guard(_pole_pairs, F, R, FW)
 
     # ---- R6 default constants -------------------------------------------------------------------
     R.rule("R6", "the default SM constants of gm2_constants.hpp are read only by constructors / default "
@@ -493,13 +503,21 @@ def _goal_plumbing(F, R):
         if ip + 1 >= len(ps):
             continue
         want = (ps[ip]["id"], ps[ip + 1]["id"])
+        # local aliases: `const double prec = precision;` stands for the parameter
+        alias = {}
+        for d_ in walk(f["body"]):
+            if d_.get("k") == "DeclStmt":
+                for dd in d_.get("decls", ()):
+                    ini = strip_all(dd.get("init")) if dd.get("init") is not None else None
+                    if "id" in dd and ini is not None and ini.get("k") == "DeclRefExpr":
+                        alias[dd["id"]] = alias.get(ini.get("id"), ini.get("id"))
         for c in walk(f["body"]):
             if is_call(c) and str(c.get("fn") or "") in takes:
                 args = call_args(c)
                 ids = []
                 for a in args[:2]:
                     a0 = strip_all(a)
-                    ids.append(a0.get("id") if a0 is not None and a0.get("k") == "DeclRefExpr" else None)
+                    ids.append(alias.get(a0.get("id"), a0.get("id")) if a0 is not None and a0.get("k") == "DeclRefExpr" else None)
                 n += 1
                 R.check("R9", tuple(ids) == want and len(args) == 2,
                         "%s -> %s(%s, %s)" % (f["name"].split("::")[-1], str(c.get("fn")).split("::")[-1], ps[ip]["name"], ps[ip + 1]["name"]),
@@ -513,7 +531,7 @@ def _goal_plumbing(F, R):
                 and f["file"].startswith("src/MSSMNoFV/"):
             fwd = [c for c in walk(f["body"]) if is_call(c) and "convert_" in str(c.get("fn") or "")
                    and len([a for a in call_args(c) if strip_all(a) is not None and strip_all(a).get("k") == "DeclRefExpr"
-                            and strip_all(a).get("id") in {p["id"] for p in f["params"]}]) >= 2]
+                            and _alias_of(f, strip_all(a).get("id")) in {p["id"] for p in f["params"]}]) >= 2]
             n += 1
             R.check("R9", bool(fwd), "%s forwards its precision goal" % f["name"].split("::")[-1], F.loc(f),
                     "no conversion routine receives this function's (precision, max_iterations)", key="R9|fwd|" + f["name"].split("::")[-1])
@@ -568,3 +586,80 @@ def _fit_survives(F, R, FW):
                    "final spectrum can miss the pole mass by more than the requested precision without a warning"
                    % (who[0] if who else "a statement", routine, what, ", ".join(w), "/".join(mms)),
                    key="R10|%s|%s" % (routine, who[0] if who else "stmt"))
+
+
+def _alias_of(f, vid):
+    """the parameter a local `const T x = param;` stands for (or vid itself)"""
+    for d_ in walk(f["body"]):
+        if d_.get("k") == "DeclStmt":
+            for dd in d_.get("decls", ()):
+                ini = strip_all(dd.get("init")) if dd.get("init") is not None else None
+                if dd.get("id") == vid and ini is not None and ini.get("k") == "DeclRefExpr":
+                    return _alias_of(f, ini.get("id"))
+    return vid
+
+
+def _pole_pairs(F, R, FW):
+    """pole masses and pole mixing matrices of one sector must have one provenance: the model fills a pole mixing matrix
+    only in the same guarded block that fills the pole masses of that sector (both empty -> both from the tree-level
+    spectrum); a mixing matrix filled on its own is combined with the *user's* pole masses, and survives on the object"""
+    R.rule("R11", "the model writes a pole mixing matrix (physical.ZN, UM, UP, ZM, ...) only together with the pole masses of the "
+                  "same sector, under the test that those pole masses are empty (one provenance per sector)", 10)
+    cls = "gm2calc::MSSMNoFV_onshell_mass_eigenstates::"
+    # sector pairing from the spectrum routines: calculate_MX: decomposition(mass matrix, MX, Z...)
+    pair = {}
+    E = Evaluator(F, inline=lambda n, g: False, max_depth=2)
+    for k, f in F.functions.items():
+        if not re.match(r"^" + re.escape(cls) + r"calculate_M\w+$", f["name"]):
+            continue
+        E.effects = []
+        try:
+            E.function_value(f)
+        except Exception:
+            continue
+        for cnd, c, n in E.effects:
+            if re.search(r"(^|::)fs_(svd|diagonalize_\w+)$", str(c[1]).split("<")[0]):
+                flds = [a[2] for a in c[2][1:] if a[0] == "field" and a[1] == ("this",)]
+                if flds:
+                    for z in flds[1:]:
+                        pair[z] = flds[0]
+    if len(pair) < 8:
+        R.soft_broken("R11: mixing-matrix/mass pairing could not be derived (%d pairs)" % len(pair))
+        return
+    n_sites = 0
+    for k, f in sorted(F.functions.items()):
+        if not f["name"].startswith("gm2calc::MSSMNoFV_onshell::") or not f["file"].startswith("src/MSSMNoFV/MSSMNoFV_onshell.cpp"):
+            continue
+        S = None
+        Rr = None
+        for n in walk(f["body"]):
+            if not (n.get("k") in ("BinaryOperator", "CXXOperatorCallExpr") and n.get("op") == "="):
+                continue
+            lhs = strip_all(n["c"][0] if n["k"] == "BinaryOperator" else n["c"][1])
+            if lhs is None or lhs.get("k") != "MemberExpr" or (lhs.get("sn") or "") not in pair:
+                continue
+            # physical.<Z>: the object is the pole-mass struct
+            inner = [x for x in walk(lhs) if x is not lhs and (x.get("k") == "MemberExpr" and (x.get("sn") == "physical") or
+                                                               is_call(x) and str(x.get("fn") or "").endswith("get_physical"))]
+            if not inner:
+                continue
+            S = S or Struct(f)
+            Rr = Rr or Renderer(f, resolve_locals=False)
+            z, m = lhs["sn"], pair[lhs["sn"]]
+            n_sites += 1
+            blk = S.enclosing(n, ("IfStmt",))
+            ok, why = False, "the assignment is not inside an `if (is_zero(physical.%s))` block" % m
+            if blk is not None:
+                ctxt = Rr.r(blk["cond"])
+                writes_m = any(x.get("k") == "MemberExpr" and x.get("sn") == m and
+                               any(y.get("k") in ("BinaryOperator", "CXXOperatorCallExpr") and y.get("op") == "=" and
+                                   (strip_all(y["c"][0] if y["k"] == "BinaryOperator" else y["c"][1]) is x) for y in walk(blk.get("then")))
+                               for x in walk(blk.get("then")))
+                tests_m = re.search(r"is_zero\((get_physical\(\)|physical)\.%s\b" % re.escape(m), ctxt) is not None
+                ok = writes_m and tests_m
+                why = "physical.%s is written under `%s`%s" % (z, ctxt[:60], "" if writes_m else " without the pole masses physical.%s" % m)
+            R.check("R11", ok, "%s: physical.%s filled together with physical.%s" % (f["name"].split("::")[-1], z, m), F.loc(f, n),
+                    why + ": the tree-level mixing matrix would be combined with pole masses of another origin and stay on the object "
+                    "for later conversions", key="R11|%s|%s" % (f["name"].split("::")[-1], z))
+    if n_sites < 8:
+        R.soft_broken("R11: expected the fill-if-empty sites of copy_susy_masses_to_pole, found %d" % n_sites)
